@@ -197,4 +197,33 @@ example :
     (c.run (plannerEnv 1 1 (fun _ => true)) []).2 ≠ (c.run (plannerEnv 1 1 (fun _ => false)) []).2 := by
   decide
 
+/-! ## an unasked input: what an output state held before the call -/
+
+/-- Converse-style witness to `planner_is_function_of_draws`: a sampler that leaves one component of its output
+state unwritten (model `skipSampler`, the shape of `CompoundStateSampler::sampleUniformNear` without its
+zero-weight branch) produces, in the *same* environment — same seed, same draws, same callbacks — the *same
+transcript* for every old content of the output state, and yet *different outputs* for two different old
+contents.  Uninitialised memory is an oracle nobody asks; a computation that reads it is not a function of
+(seed, problem, budget). -/
+theorem unwritten_output_depends_on_garbage {α : Type} (env : Env Unit α) (skip : List Bool)
+    (hs : true ∈ skip) (x y : α) (hxy : x ≠ y) :
+    let g₁ := List.replicate skip.length x
+    let g₂ := List.replicate skip.length y
+    ((skipSampler skip g₁).run env []).1 = ((skipSampler skip g₂).run env []).1 ∧
+      ((skipSampler skip g₁).run env []).2 ≠ ((skipSampler skip g₂).run env []).2 :=
+  ⟨skipSampler_transcript_ignores_old env skip _ _ (by simp) [],
+   skipSampler_output_depends_on_old env skip hs x y hxy []⟩
+
+/-- … whereas a sampler that writes every component returns the same state whatever the output state held. -/
+theorem fully_written_output_ignores_garbage {α : Type} (env : Env Unit α) (skip : List Bool)
+    (hs : true ∉ skip) (g₁ g₂ : List α) (hl : g₁.length = g₂.length) :
+    (skipSampler skip g₁).run env [] = (skipSampler skip g₂).run env [] :=
+  skipSampler_full_ignores_old env skip hs g₁ g₂ hl []
+
+-- concrete: three components, the middle one (a zero-weight subspace) skipped; draws 10, 11, …
+example :
+    ((skipSampler [false, true, false] [0, 0, 0]).run (streamEnv fun i => 10 + i) []).2 = [10, 0, 11] ∧
+    ((skipSampler [false, true, false] [7, 7, 7]).run (streamEnv fun i => 10 + i) []).2 = [10, 7, 11] := by
+  decide
+
 end OmplModel.Props.C20
